@@ -217,9 +217,40 @@ def run_unit(repo, unit, builddir, tier):
     out['canary'] = {'status': rc.get('status'), 'errors': rc.get('errors', 0), 'points': spc.canary_points}
     out['status'] = r['status']
     if r['status'] == 'undecided':
-        out['reason'] = r.get('reason', '')
-        out['stderr_tail'] = r.get('stderr', '')[-3000:]
-        return out
+        # the text was not accepted.  When that is because of a closure the proof was not written for, handed to an Option combinator Verus
+        # has no specification for (`map_or`), the second attempt below (X2d-auto) may still decide the unit
+        unexpected = [f for f in sp.functions if f.get('role') in ('main', 'helper') and len(f.get('closures_left') or []) > f.get('closures_ok', 0)]
+        sp2 = None
+        if unexpected and 'not supported' in (r.get('reason') or ''):
+            try:
+                sp2 = splice.build(repo, tpath, canary=False, auto=True)
+            except splice.AnchorLost:
+                sp2 = None
+        r2 = None
+        if sp2 is not None and sp2.rules.get('X2d-auto'):
+            auto_path = os.path.join(builddir, fname + '_auto.rs')
+            open(auto_path, 'w').write(sp2.text)
+            r2 = run_file(auto_path, timeout)
+        if r2 is None or r2['status'] == 'undecided':
+            out['reason'] = r.get('reason', '')
+            out['stderr_tail'] = r.get('stderr', '')[-3000:]
+            return out
+        still = [f for f in sp2.functions if f.get('role') in ('main', 'helper') and len(f.get('closures_left') or []) > f.get('closures_ok', 0)
+                 and (r2['status'] != 'failed' or f['item'].split('::')[-1] in set(d['function'] for d in r2['failures']))]
+        if r2['status'] == 'failed' and still:
+            out['reason'] = r.get('reason', '')
+            return out
+        out['auto_desugar'] = {'rule': 'X2d-auto', 'sites': sp2.rules.get('X2d-auto'), 'file': os.path.relpath(auto_path, '/verif')}
+        out['rules_fired'] = sp2.rules
+        out['dropped_debug_asserts'] = sp2.dropped_debug_asserts
+        out['functions'] = [f for f in sp2.functions if f['role'] in ('main', 'helper')]
+        out['verified'] = r2.get('verified', 0)
+        out['errors'] = r2.get('errors', 0)
+        out['checker_cmd'] = 'verus %s --output-json --time' % os.path.relpath(auto_path, '/verif')
+        sp, r, main_path = sp2, r2, auto_path
+        out['status'] = r['status']
+        for f in sp.functions:           # (the retry below must not run a second time)
+            f['closures_ok'] = max(f.get('closures_ok', 0), len(f.get('closures_left') or []))
     if r['status'] == 'failed':
         # a failed obligation in a function whose text now holds a closure the proof was not written for (more un-rewritten closures
         # than its `//@splice .. closures_ok=N` line allows) is NOT a violation: Verus accepts such a closure (e.g. inside Option::map)
